@@ -163,10 +163,19 @@ def sources_stream(rep, r, n):
             x0, y0 = r.uniform(4, 39), r.uniform(4, 35)
             img += r.uniform(50, 100) * np.exp(-((xx - x0) ** 2 + (yy - y0) ** 2) / (2 * r.choice([1.3, 2.0]) ** 2))
             pos.append((x0 + r.uniform(-0.7, 0.7), y0 + r.uniform(-0.7, 0.7)))
+        if r.random() < 0.5:                                      # a close neighbour: overlapping cut-outs
+            x0, y0 = pos[0][0] + r.uniform(3, 5), pos[0][1] + r.uniform(-2, 2)
+            img += r.uniform(50, 100) * np.exp(-((xx - x0) ** 2 + (yy - y0) ** 2) / (2 * 1.3 ** 2))
+            pos.insert(1, (x0, y0))
         rs = np.random.RandomState(r.randrange(2 ** 31))
         img += rs.normal(0, 0.2, img.shape)
         func = r.choice([centroid_com, centroid_quadratic, centroid_1dg, centroid_2dg])
         box = r.choice([7, 9, (7, 9), 11])
+        fp = None
+        if r.random() < 0.4:                                      # a footprint with excluded elements instead of a box
+            fy, fx = np.mgrid[-4:5, -4:5]
+            fp = (fx ** 2 + fy ** 2) <= r.choice([16.5, 13.0, 20.0])
+            box = fp.shape
         mask = None
         if r.random() < 0.4:
             mask = rs.rand(*img.shape) < 0.03
@@ -183,7 +192,15 @@ def sources_stream(rep, r, n):
         with warnings.catch_warnings():
             warnings.simplefilter('ignore')
             try:
-                gx, gy = centroid_sources(img, xs[order], ys[order], box_size=box, mask=mask, centroid_func=func, **kwargs)
+                mask_before = None if mask is None else mask.copy()
+                if fp is None:
+                    gx, gy = centroid_sources(img, xs[order], ys[order], box_size=box, mask=mask, centroid_func=func, **kwargs)
+                else:
+                    gx, gy = centroid_sources(img, xs[order], ys[order], footprint=fp, mask=mask, centroid_func=func, **kwargs)
+                if mask is not None and not np.array_equal(mask, mask_before):
+                    rep.violation('centroid_sources-modifies-mask', 'centroid_sources modified the caller\'s mask array',
+                                  {'func': func.__name__, 'footprint': None if fp is None else fp.astype(int).tolist()})
+                    mask = mask_before
             except Exception as e:
                 rep.violation(f'centroid_sources-raises:{type(e).__name__}', f'centroid_sources raised {e!r}', {'func': func.__name__})
                 continue
@@ -192,7 +209,9 @@ def sources_stream(rep, r, n):
             for j, i in enumerate(order):
                 sl, ss = overlap_slices(img.shape, shape, (ys[i], xs[i]))
                 cut = img[sl]
-                mcut = np.zeros(cut.shape, bool) if mask is None else mask[sl]
+                mcut = np.zeros(cut.shape, bool) if mask is None else mask[sl].copy()
+                if fp is not None:
+                    mcut = mcut | ~fp[ss]
                 kw = dict(kwargs)
                 if 'error' in kw:
                     kw['error'] = kw['error'][sl]
@@ -205,7 +224,7 @@ def sources_stream(rep, r, n):
                     bad = (j, i, (gx[j], gy[j]), (ex, ey))
                     break
         rep.case(('sources', img.tobytes(), func.__name__, repr(box), tuple(order)), True,
-                 kind=f'centroid_sources:{func.__name__}' + (':error' if 'error' in kwargs else ''),
+                 kind=f'centroid_sources:{func.__name__}' + (':error' if 'error' in kwargs else '') + (':footprint' if fp is not None else ''),
                  sample={'func': func.__name__, 'box_size': box, 'npos': len(pos), 'order': order})
         rep.probe_only += 1
         if bad:
